@@ -1,5 +1,5 @@
 #![no_main]
 use libfuzzer_sys::fuzz_target;
 fuzz_target!(|data: &[u8]| {
-    vf_core::fuzz_one(data, "C10", &vf_index::c10::case_strategy(), vf_index::c10::run_case);
+    vf_core::fuzz_one(data, "C10", "histories", &vf_index::c10::case_strategy(), vf_index::c10::run_case);
 });
